@@ -651,7 +651,7 @@ impl LayerGroup {
     pub fn from_existing(buffer: ByteSpan) -> Option<LayerGroup> {
         let mut cursor = Cursor::new(buffer);
 
-        let file_header = LgbHeader::read(&mut cursor).unwrap();
+        let file_header = LgbHeader::read(&mut cursor).ok()?;
         if file_header.file_size <= 0 || file_header.total_chunk_count <= 0 {
             return None;
         }
